@@ -173,7 +173,7 @@ func init() {
 	vx.Register(&vx.Prop{
 		ID:    "C09",
 		Level: "model_checking",
-		Rule: "schedule exploration with a cooperative scheduler (one goroutine runs at a time; scheduling points = every Read / Write the library performs on the harness-owned readers and writers, with reads cut at record boundaries so that every record's add to the File is its own step; the decoding calls are explored again with one-byte reads, i.e. scheduling points inside a record's parsing): 2 threads x 1 call each for every unordered pair of the 37 pool calls (the four longest calls take part in the histories and the race pass only) with preemption bound 2 (quick) / 4 (thorough), the smallest pairs without bound; 3 threads and 2 calls per thread on selected calls with preemption bound 2 (thorough 3). Oracle: every thread's result equals its solo result; no deadlock; replay of a schedule reproduces the same trace. " +
+		Rule: "schedule exploration with a cooperative scheduler (one goroutine runs at a time; scheduling points = every Read / Write the library performs on the harness-owned readers and writers, with reads cut at record boundaries so that every record's add to the File is its own step; the decoding calls are explored again with one-byte reads, i.e. scheduling points inside a record's parsing): 2 threads x 1 call each for every unordered pair of the 39 pool calls (the five longest calls take part in the histories and the race pass only) with preemption bound 2 (quick) / 4 (thorough), the smallest pairs without bound; 3 threads and 2 calls per thread on selected calls with preemption bound 2 (thorough 3). Oracle: every thread's result equals its solo result; no deadlock; replay of a schedule reproduces the same trace. " +
 			"Then a separate free-running pass of the same bodies under the Go race detector (8 goroutines, start barrier, repeated rounds); every report is classified by the functions on its stacks. states = distinct global interleavings (traces); transitions = scheduling decisions; traces = executions",
 		Assumptions: []string{"sequentially consistent interleavings at Read/Write granularity; finer-grained interleavings and memory-model effects are left to the free-running race-detector pass, which samples", "accumulated distances are attributed to the listed finding only when the shadow accumulator, fed in the explored interleaving order, predicts them exactly"},
 		Run:         runC09,
@@ -426,7 +426,15 @@ func runC09(w *vx.W) {
 			if !w.Mine(k) {
 				continue
 			}
-			reports, err := c09RacePass(raceBin, a, b, rounds)
+			rnds := rounds
+			if pool[a].Huge || pool[b].Huge {
+				// the 30000-record call: with itself and with the first pool call, two rounds
+				if !(a == b || a == 0) {
+					continue
+				}
+				rnds = 2
+			}
+			reports, err := c09RacePass(raceBin, a, b, rnds)
 			if err != nil {
 				w.HarnessError("race pass %d,%d: %v", a, b, err)
 			}
